@@ -13,6 +13,9 @@ if [ -x modelrun ] && [ -z "$(find $V/coq/theories $V/coq/extract/$ID.v $V/model
 fi
 rm -f *.ml *.mli *.cm* *.o modelrun
 cp $V/coq/extract/$ID.v Extract$ID.v
+# the theories the extraction imports must be compiled (a clean rebuild of another property may have removed them)
+VOS=$(grep 'Rpgp Require Import' Extract$ID.v | sed 's/.*Require Import//; s/\.$//' | tr ' ' '\n' | grep '\.' | sed 's#\.#/#g; s#^#theories/#; s#$#.vo#' | tr '\n' ' ')
+( cd $V/coq && [ -f Makefile ] || coq_makefile -f _CoqProject -o Makefile >/dev/null; cd $V/coq && timeout 1500 make -j16 $VOS > $D/theories.log 2>&1 ) || { tail -5 $D/theories.log; exit 1; }
 timeout 600 coqc -Q $V/coq/theories Rpgp Extract$ID.v > extract.log 2>&1 || { cat extract.log; exit 1; }
 cp $V/model/common.ml common.ml
 grep -q "Prims\." $V/model/$ID.ml && cp $V/model/prims.ml prims.ml
